@@ -4,7 +4,7 @@
     decreasing variants and, for first-fit and best-fit, the weight-function bound 10 * bins <= 17 * OPT + 2 (the property's floor(1.7 OPT) of
     Dosa and Sgall differs from it by at most one bin), and floor(1.7 OPT) itself for every OPT not congruent to 4, 7 mod 10 (first-fit: also OPT <= 6).
     Statements only; proofs in Proofs/PackingProofs.v and Proofs/OracleSpec.v. *)
-From Prtpy Require Import Base.Prelude Model.Binner Model.Packing Spec.Partition Oracle.Reach Proofs.PackingProofs Proofs.OracleSpec Proofs.FFDRatioProofs Proofs.BFDRatioProofs Proofs.FF17Proofs Proofs.BF17Proofs Proofs.FF17SharpProofs Proofs.FF17FloorProofs Proofs.FF17PureProofs Proofs.FFD119Proofs Proofs.FFD119MidProofs Proofs.BFD54Proofs Proofs.BFD119MidProofs.
+From Prtpy Require Import Base.Prelude Model.Binner Model.Packing Spec.Partition Oracle.Reach Proofs.PackingProofs Proofs.OracleSpec Proofs.FFDRatioProofs Proofs.BFDRatioProofs Proofs.FF17Proofs Proofs.BF17Proofs Proofs.FF17SharpProofs Proofs.FF17FloorProofs Proofs.FF17PureProofs Proofs.FFD119Proofs Proofs.FFD119MidProofs Proofs.BFD54Proofs Proofs.BFD119MidProofs Oracle.Checkers Proofs.CheckersSpec.
 
 (** first-fit: for any two bins, the earlier sum plus the first item of the later bin exceeds the bin size *)
 Theorem C09_ff_anyfit : forall (A : Type) (valueof : A -> Z) (C : Z) (items : list A) (b : bins A),
@@ -171,3 +171,8 @@ Theorem C09_bfd_ratio_11_9_wide_partial : forall (A : Type) (valueof : A -> Z) (
   best_fit_decreasing valueof true C items = Ok b -> Packable C (map valueof items) n -> (9 * length b <= 11 * n + 16)%nat.
 Proof. exact @bfd_ratio_11_9_partial2. Qed.
 Print Assumptions C09_bfd_ratio_11_9_wide_partial.
+
+(** the boolean checker that judges the any-fit invariant on the IMPLEMENTATION's packings (extracted) decides exactly the specification *)
+Theorem C09_checker_anyfit : forall (C : Z) (b : bins citem), anyfit_b C b = true <-> anyfit cval C b.
+Proof. exact anyfit_b_spec. Qed.
+Print Assumptions C09_checker_anyfit.
